@@ -96,7 +96,7 @@ func randomPixLike(rng *vRNG, f detFrame, base uint16) detFrame {
 func TestVerif_C09(t *testing.T) {
 	c := vStart(t, "C09", "TestVerif_C09")
 	defer c.Finish()
-	n := c.N(40000, 600000)
+	n := c.N(40000, 3000000)
 	for idx := int64(0); idx < n; idx++ {
 		if !c.Mine(idx) {
 			continue
@@ -316,7 +316,7 @@ func (r *c08Run) feed(f *detFrame) bool {
 func TestVerif_C08(t *testing.T) {
 	c := vStart(t, "C08", "TestVerif_C08")
 	defer c.Finish()
-	n := c.N(40000, 600000)
+	n := c.N(40000, 3000000)
 	for idx := int64(0); idx < n; idx++ {
 		if !c.Mine(idx) {
 			continue
